@@ -24,7 +24,7 @@ from typing import Dict, List, Optional, Tuple
 
 from sa.peval import peval
 from sa.report import Ctx
-from sa.sym import FALSE, NONE, NOT, TRUE, conjuncts, mk_cmp, show, walk
+from sa.sym import AND as AND_, FALSE, NONE, NOT, TRUE, conjuncts, mk_cmp, show, walk
 
 OPS = "soundevent.geometry.operations"
 AOPS = "soundevent.arrays.operations"
@@ -85,9 +85,10 @@ SERVES: Dict[str, List[Tuple[str, str, dict]]] = {
                                 "quantities": [_rng(0), _rng(1)], "why": "every request inside the current range is cropped"}),
             (AOPS, "extend_dim", {"valid": [mk_cmp("le", P("start"), P("stop")), mk_cmp("le", _rng(0), P("stop")), mk_cmp("le", P("start"), _rng(1)), mk_cmp("le", _rng(0), _rng(1))],
                                   "quantities": [_rng(0), _rng(1)], "why": "every request with start <= stop is extended"})],
-    "C18": [("soundevent.io.aoef", "save", {"why": "every collection object is saved (a recording outside the audio directory is the recording adapter's rejection)"}),
+    "C18": [("soundevent.io.aoef", "save", {"must_reach": [("writes the document", lambda t: t[1][0] == "attr" and t[1][2] in ("write_text", "write_bytes", "write"))], "why": "every collection object is saved (a recording outside the audio directory is the recording adapter's rejection)"}),
             ("soundevent.io.aoef", "load", {"assume": "file_guards", "why": "every file that save has written is loaded, with every audio directory"})],
-    "C01": [("soundevent.io.aoef", "save", {"why": "every collection object is saved"}),
+    "C01": [("soundevent.io.aoef", "save", {"must_reach": [("writes the document", lambda t: t[1][0] == "attr" and t[1][2] in ("write_text", "write_bytes", "write"))],
+                                             "why": "every collection object is saved"}),
             ("soundevent.io.aoef", "load", {"assume": "file_guards", "why": "every file that save has written is loaded"})],
     "C19": [("soundevent.evaluation.encoding", "classification_encoding", {"why": "every tag list is encoded against every vocabulary"}),
             ("soundevent.evaluation.encoding", "multilabel_encoding", {"why": "every tag list is encoded against every vocabulary"}),
@@ -138,6 +139,8 @@ def _input_determined(t, params, extra) -> bool:
     if t[0] == "sub" and t[2][0] == "const":
         return _input_determined(t[1], params, extra)
     if t[0] == "call" and t[1] == ("builtin", "len") and len(t[2]) == 1 and not t[3]:
+        return _input_determined(t[2][0], params, extra)
+    if t[0] == "call" and t[1] in (("ext", "pathlib.Path"), ("builtin", "str"), ("ext", "os.fspath")) and len(t[2]) == 1 and not t[3]:
         return _input_determined(t[2][0], params, extra)
     return False
 
@@ -301,6 +304,10 @@ def _classify(atom, pol, params, extra):
     if atom[0] == "cmp" and atom[1] in ("in", "notin") and _input_determined(atom[2], params, extra) and atom[3][0] in ("tuple", "list", "set") \
             and all(x[0] == "const" for x in atom[3][1]):
         return ("free", ("in", atom[2], atom[3]), (atom[1] == "in") == pol)
+    if atom[0] == "call" and ((atom[1][0] == "attr" and atom[1][2] in ("exists", "is_file", "is_dir") and not atom[2] and _input_determined(atom[1][1], params, extra))
+                              or (atom[1] in (("ext", "os.path.exists"), ("ext", "os.path.isfile"), ("ext", "os.path.isdir")) and len(atom[2]) == 1
+                                  and _input_determined(atom[2][0], params, extra))):
+        return ("free", atom, pol)  # the state of the file system at a path the caller names: both states occur
     if _input_determined(atom, params, extra):
         return ("free", ("truthy", atom), pol)  # truthiness of a parameter / attribute: empty and non-empty inputs are both valid
     if atom[0] == "call" and atom[1] in (("builtin", "bool"), ("builtin", "any"), ("builtin", "all")) and len(atom[2]) == 1 and _input_determined(atom[2][0], params, extra):
@@ -404,7 +411,7 @@ def check_function(ctx: Ctx, rule: str, modname: str, fname: str, spec: dict) ->
         else:
             valid.append(a)
     # optional parameters: both readings of `p is None`
-    nones = sorted({x[2] for r in raises for x in walk(r.live) if x[0] == "cmp" and x[1] in ("is", "isnot") and x[3] == NONE and x[2][0] == "param"}, key=repr)
+    nones = sorted({x[2] for r in s.events for x in walk(r.live) if x[0] == "cmp" and x[1] in ("is", "isnot") and x[3] == NONE and x[2][0] == "param"}, key=repr)
     optional = []
     a_ = s.node.args
     allp = list(a_.posonlyargs) + list(a_.args)
@@ -418,8 +425,7 @@ def check_function(ctx: Ctx, rule: str, modname: str, fname: str, spec: dict) ->
         if (isinstance(d, _ast.Constant) and d.value is None) or "Optional" in anntext or "None" in anntext:
             optional.append(p)
     enums = list(spec.get("enum", {}).items())
-    n_dead = 0
-    for r in raises:
+    def verdict_of(live0):
         verdict = "dead"
         detail = None
         for none_vals in itertools.product((True, False), repeat=len(optional)):
@@ -434,7 +440,7 @@ def check_function(ctx: Ctx, rule: str, modname: str, fname: str, spec: dict) ->
                         env[("cmp", "isnot", p, NONE)] = True
                 for (q, _), v in zip(enums, enum_vals):
                     env[q] = v
-                live = _canon_axis(r.live, [P("arr"), P("array")]) if spec.get("quantities") else r.live
+                live = _canon_axis(live0, [P("arr"), P("array")]) if spec.get("quantities") else live0
                 lv = _simplify(peval(live, env))
                 lv = peval(lv, env)
                 if spec.get("assume") == "file_guards":
@@ -473,6 +479,11 @@ def check_function(ctx: Ctx, rule: str, modname: str, fname: str, spec: dict) ->
                     verdict, detail = "unknown", res[1]
             if verdict == "fires":
                 break
+        return verdict, detail
+
+    n_dead = 0
+    for r in raises:
+        verdict, detail = verdict_of(r.live)
         if verdict == "dead":
             n_dead += 1
         elif verdict == "fires":
@@ -489,6 +500,49 @@ def check_function(ctx: Ctx, rule: str, modname: str, fname: str, spec: dict) ->
             ctx.undec(rule, f"{file}:{r.lineno} {fname}", f"cannot decide whether the rejection `{show(r.live)[:90]}` can fire for a valid request: {detail}")
     if n_dead == len(raises):
         ctx.ok(rule, site, f"{len(raises)} own rejection(s), none can fire for a valid request ({spec.get('why', '')})")
+    # (b) no valid request is answered with nothing: a path that returns None (or falls off the end) from a function that answers
+    # with a value -- its annotation is not Optional / None, or its other paths return one -- and a generator that ends before its
+    # first element can be produced, under a condition a valid request satisfies
+    import ast as _ast2
+    ann = getattr(s.node, "returns", None)
+    anntext = _ast2.unparse(ann) if ann is not None else ""
+    optional_result = ann is not None and (anntext in ("None",) or "Optional" in anntext or "None" in anntext)
+    def report(kind, live, line, what):
+        verdict, detail = verdict_of(live)
+        if verdict == "fires":
+            conj, ex, env = detail
+            vals = ", ".join(f"{show(q)[:40]} = {v!r}" for q, v in sorted(ex.items(), key=lambda kv: repr(kv[0])))
+            cond = " and ".join(("" if pol else "not ") + show(a)[:50] for a, pol in conj) or "always"
+            ctx.bad(rule, file, fname, f"{kind} under `{show(live)[:70]}`",
+                    f"{fname} {what} when {cond}" + (f" (e.g. {vals})" if vals else "")
+                    + f" -- {spec.get('why', 'the property promises a result for every valid input')}", line,
+                    witness={"condition": cond, "example": {show(q): v for q, v in ex.items()}})
+        elif verdict == "unknown":
+            ctx.undec(rule, f"{file}:{line} {fname}", f"cannot decide whether `{show(live)[:90]}` ({kind}) holds for a valid request: {detail}")
+    if s.is_generator:
+        ys = s.yields
+        first = min((y.idx for y in ys), default=None)
+        for e in s.of("return"):
+            if first is not None and e.idx < first and not e.loops and not e.in_handler and isinstance(e.node, _ast2.Return):
+                report("return before the first element", e.live, e.lineno, "ends without producing anything")
+    elif not optional_result:
+        rets = [r for r in s.raw_returns if not r.in_handler]
+        valued = [r for r in rets if r.term != NONE]
+        if valued or ann is not None:
+            for r in rets:
+                if r.term == NONE and isinstance(r.node, _ast2.Return):
+                    report("return None", r.live, r.lineno, "answers a valid request with None")
+            if s.fall_live != FALSE and valued:
+                report("falls off the end", s.fall_live, s.node.lineno, "answers a valid request with None (a path falls off the end)")
+    # (c) the effect the property is about is reached for every valid request
+    for label, pred in spec.get("must_reach", ()):
+        evs = [e for e in s.calls if pred(e.term)]
+        if not evs:
+            ctx.undec(rule, site, f"the call that {label} was not found")
+            continue
+        from sa.sym import OR as _OR
+        reach = _OR(*[AND_(*[c for c in conjuncts(e.live) if c[0] != "inloop"]) for e in evs])
+        report(f"{label} skipped", NOT(reach), evs[0].lineno, f"does not reach the call that {label}")
 
 
 def check_serves_valid(ctx: Ctx, prop: str) -> None:
